@@ -338,6 +338,9 @@ def rule_fresh_objects(ctx: Ctx) -> None:
                         out.append(v_)
             return out
 
+        # `f = member` where everything `member` can hold is fresh: a rebinding that replaces the caller's object by a copy
+        copies = sorted(set(copies) | set(cfg.nodes(lambda s: isinstance(s, ast.Assign) and isinstance(s.value, ast.Name) and any(norm(t) == norm(val) for t in s.targets)
+                                                    and bool(leaves(s.value.id)) and all(fresh(v_) for v_ in leaves(s.value.id)))))
         lv = leaves(val.id) if isinstance(val, ast.Name) and val.id not in ad.param_names() else []  # a parameter also holds the caller's object
         all_fresh = bool(lv) and all(fresh(v_) for v_ in lv)
         copied = inline or all_fresh or (bool(copies) and cfg.must_pass(ENTRY, app[0], set(copies), normal_only=True))
